@@ -96,6 +96,7 @@ def gen_plan(seed: int, run: int, tier: str) -> dict:
         "pool": rng.choice([1, 2, 3, 10]),
         "snapshot_interval": rng.choice([2, 5, 100]),
         "share_study": share_study,
+        "reuse_dicts": rng.random() < 0.4,
     }
     return {"check": ID, "seed": seed, "run": run, "cfg": cfg, "queue": queue, "pre": pre, "tasks": tasks, "sched": {"seed": rng.getrandbits(48)}}
 
@@ -148,11 +149,29 @@ def _run(plan: dict, sim: sched.Sim, ch: sched.Chooser, dep: deploy.Deployment) 
             p["i"] = q["i"]
         return p
 
+    reuse = cfg.get("reuse_dicts", False)
+    per_caller: dict[str, tuple[dict, dict]] = {}
+
     def enqueue(study: Any, q: dict) -> None:
-        if q["how"] == "enqueue":
-            study.enqueue_trial(params_of(q), user_attrs={"qid": q["qid"]})
+        me = sim.cur.name if sim.in_task() else "harness"
+        shared_params, shared_attrs = per_caller.setdefault(me, ({}, {}))  # one pair per caller
+        # the caller may re-use (and later overwrite) the dicts it passed: what was enqueued
+        # are the values at enqueue time
+        if reuse:
+            shared_params.clear()
+            shared_params.update(params_of(q))
+            shared_attrs.clear()
+            shared_attrs.update({"qid": q["qid"]})
+            params, attrs = shared_params, shared_attrs
         else:
-            study.add_trial(create_trial(state=TrialState.WAITING, system_attrs={"fixed_params": params_of(q)}, user_attrs={"qid": q["qid"]}))
+            params, attrs = params_of(q), {"qid": q["qid"]}
+        if q["how"] == "enqueue":
+            study.enqueue_trial(params, user_attrs=attrs)
+        else:
+            study.add_trial(create_trial(state=TrialState.WAITING, system_attrs={"fixed_params": params}, user_attrs=attrs))
+        if reuse:
+            shared_params.update({"x": 0.999999, "c": "c", "i": 10})
+            shared_attrs["qid"] = -1
 
     enq_done: list[int] = []
     for k in plan["pre"]:
